@@ -231,7 +231,11 @@ func cmdCheck(args []string) int {
 		}
 		wg.Wait()
 	}
-	return report(vdir, *prop, *tier, seed, results, t0, *verbose, *updateBaseline, *only != "")
+	// evidence and baselines are records of /repo itself, of a whole property, on a tree that is
+	// not being experimented with: nothing is written for partial runs, other repositories, or
+	// when NRIVERIF_NOEVIDENCE is set (seeded-change evaluation)
+	partial := *only != "" || filepath.Clean(*repo) != "/repo" || os.Getenv("NRIVERIF_NOEVIDENCE") != ""
+	return report(vdir, *prop, *tier, seed, results, t0, *verbose, *updateBaseline, partial)
 }
 
 func hasStr(xs []string, s string) bool {
